@@ -32,7 +32,7 @@ SHAPES = shapes()
 
 
 def bounds(tier):
-    return dict(skeletons=[s.name for s in SHAPES], thresholds=[1, 2], episodes='1..2', steps_per_episode='<= 2 (quick) / 3 (thorough)',
+    return dict(skeletons=[s.name for s in SHAPES], thresholds=[1, 2] if tier == 'quick' else [1, 2, 3], episodes='1..2 (quick) / 1..3 (thorough)', steps_per_episode='<= 2 (quick) / 3 (thorough)',
                 gamma=['1/2', '9/10'], decision_cap=400)
 
 
@@ -237,8 +237,8 @@ def jobs(tier):
     quick = tier == 'quick'
     o = dict(timeout_ms=15000, budget_s=(300 if tier == 'quick' else 1500), max_paths=40000)
     for i, sh in enumerate(SHAPES):
-        for m in [1, 2]:
-            for ep, L in ([(1, 2), (2, 1)] if quick else [(1, 3), (2, 2)]):
+        for m in ([1, 2] if quick else [1, 2, 3]):
+            for ep, L in ([(1, 2), (2, 1)] if quick else [(1, 3), (2, 2), (3, 2), (2, 3)]):
                 if quick and i == 1 and m == 2 and ep == 2:
                     continue
                 yield ('train', dict(shape=i, m=m, episodes=ep, L=L), dict(o, cost=5))
